@@ -130,6 +130,68 @@ struct FCQueueV : IQueue {
     bool deq( long& v ) override { return q->dequeue( v ); }
 };
 
+// ---------------------------------------------------------------- RWQueue with named nodes (tie A, Lean machine Algo/RWQueue)
+// Hidden variant `rwqueue_named`: the queue allocates its nodes itself, so they are named through the allocator
+// trait: n1, n2, … in allocation order after the warm-up (a node is allocated at the very start of enqueue(), before
+// its first scheduling point: allocation order = invocation order = the order in which the Lean machine allocates
+// node ids); the dummy is n0; the lock words are hlock / tlock.  Names are resolved by address when the trace is
+// rendered, so node memory must not be reused while the case lives: freed nodes are quarantined.
+namespace rwnames {
+    static bool on = false;
+    static size_t named = 0;
+    static std::vector<void*> quarantine;
+
+    template <class T>
+    struct alloc {
+        typedef T value_type;
+        template <class U> struct rebind { typedef alloc<U> other; };
+        alloc() noexcept {}
+        template <class U> alloc( alloc<U> const& ) noexcept {}
+        T* allocate( size_t n, void const* = nullptr )
+        {
+            T* p = static_cast<T*>( ::operator new( n * sizeof( T )));
+            if ( on ) {
+                char nm[32];
+                std::snprintf( nm, sizeof nm, "n%zu", ++named );
+                reg_name( p, sizeof( void* ), nm );        // node_type::m_pNext is the first member (checked in start_naming)
+            }
+            return p;
+        }
+        void deallocate( T* p, size_t ) noexcept { quarantine.push_back( p ); }
+        template <class U> bool operator==( alloc<U> const& ) const noexcept { return true; }
+        template <class U> bool operator!=( alloc<U> const& ) const noexcept { return false; }
+    };
+}
+struct rwn_traits : cc::rwqueue::traits { typedef cds::sync::spin lock_type; typedef rwnames::alloc<int> allocator; };
+
+struct RWQueueNamed : IQueue {
+    typedef cc::RWQueue<long, rwn_traits> queue_t;
+    std::unique_ptr<queue_t> q;
+    RWQueueNamed() { rwnames::on = false; rwnames::named = 0; q.reset( new queue_t ); }
+    ~RWQueueNamed()
+    {
+        rwnames::on = false;
+        q.reset();
+        for ( void* p : rwnames::quarantine ) ::operator delete( p );
+        rwnames::quarantine.clear();
+    }
+    bool enq( long v ) override { return q->enqueue( v ); }
+    bool deq( long& v ) override { return q->dequeue( v ); }
+    void start_naming() override
+    {
+        // called after the warm-up: whatever node is the dummy now is n0
+        rwnames::on = true;
+        rwnames::named = 0;
+        reg_name( &q->m_Head.lock, sizeof( q->m_Head.lock ), "hlock" );
+        reg_name( &q->m_Tail.lock, sizeof( q->m_Tail.lock ), "tlock" );
+        if ( static_cast<void*>( &q->m_Head.ptr->m_pNext ) != static_cast<void*>( q->m_Head.ptr )) {
+            std::fprintf( stderr, "rwqueue_named: m_pNext is not the first member of node_type\n" );
+            std::exit( 2 );
+        }
+        reg_name( &q->m_Head.ptr->m_pNext, sizeof( q->m_Head.ptr->m_pNext ), "n0" );
+    }
+};
+
 // ---------------------------------------------------------------- intrusive containers (client owns the nodes)
 
 template <class GC>
@@ -229,6 +291,34 @@ struct IntrusiveQ : IQueue {
     }
 };
 
+// Hidden variant `ioptimistic_named` (tie A, Lean machine Algo/Optimistic): as ioptimistic_hp, and the second link of
+// every node is named too: n<k> is node k's m_pNext (and the node itself: m_pNext is its first member), p<k> its m_pPrev.
+struct OptimisticNamed : IntrusiveQ< cds::gc::HP, optimistic_kind<cds::gc::HP> > {
+    typedef IntrusiveQ< cds::gc::HP, optimistic_kind<cds::gc::HP> > base;
+    bool enq( long v ) override
+    {
+        set_quiet( true );
+        item* p = new item;
+        set_quiet( false );
+        p->v = v;
+        items.emplace_back( p );
+        if ( name_nodes ) {
+            char nm[32];
+            std::snprintf( nm, sizeof nm, "n%zu", ++named );
+            reg_name( &p->m_pNext, sizeof( p->m_pNext ), nm );
+            nm[0] = 'p';
+            reg_name( &p->m_pPrev, sizeof( p->m_pPrev ), nm );
+        }
+        return q->enqueue( *p );
+    }
+    void start_naming() override
+    {
+        base::start_naming();
+        auto d = q->m_pHead.load();
+        reg_name( &d->m_pPrev, sizeof( d->m_pPrev ), "p0" );
+    }
+};
+
 template <bool Elim>
 struct IntrusiveFCQueueV : IQueue {
     struct item : boost::intrusive::list_base_hook<> { long v = 0; };
@@ -303,6 +393,7 @@ struct Fixture {
         else if ( v == "optimistic_hp" ) s.reset( new ValueQ< cc::OptimisticQueue<HP, long, oq_traits> > );
         else if ( v == "optimistic_dhp" ) s.reset( new ValueQ< cc::OptimisticQueue<DHP, long, oq_traits> > );
         else if ( v == "rwqueue" ) s.reset( new ValueQ< cc::RWQueue<long, rw_traits> > );
+        else if ( v == "rwqueue_named" ) s.reset( new RWQueueNamed );      // hidden: tie A for Algo/RWQueue
         else if ( v == "fcqueue" ) { s.reset( new FCQueueV<false>( compact, pass )); fc = true; }
         else if ( v == "fcqueue_elim" ) { s.reset( new FCQueueV<true>( compact, pass )); fc = true; }
         else if ( v == "ifcqueue" ) { s.reset( new IntrusiveFCQueueV<false>( compact, pass )); fc = true; }
@@ -311,6 +402,7 @@ struct Fixture {
         else if ( v == "imoir_hp" ) s.reset( new IntrusiveQ< HP, moir_kind<HP> > );
         else if ( v == "ibasket_hp" ) s.reset( new IntrusiveQ< HP, basket_kind<HP> > );
         else if ( v == "ioptimistic_hp" ) s.reset( new IntrusiveQ< HP, optimistic_kind<HP> > );
+        else if ( v == "ioptimistic_named" ) s.reset( new OptimisticNamed );      // hidden: tie A for Algo/Optimistic
         else if ( v == "imsqueue_dhp" ) s.reset( new IntrusiveQ< DHP, ms_kind<DHP> > );
         else if ( v == "ibasket_dhp" ) s.reset( new IntrusiveQ< DHP, basket_kind<DHP> > );
         else if ( v == "ioptimistic_dhp" ) s.reset( new IntrusiveQ< DHP, optimistic_kind<DHP> > );
